@@ -74,6 +74,9 @@ const SNAPSHOT_RETENTION_COUNT: usize = 3;
 /// Lock file name for crash detection
 const LOCK_FILE_NAME: &str = ".state.lock";
 
+/// File holding the per-directory record integrity (HMAC) key
+const KEY_FILE_NAME: &str = ".state.key";
+
 /// WAL file extension
 const WAL_EXTENSION: &str = "wal";
 
@@ -82,7 +85,6 @@ const SNAPSHOT_EXTENSION: &str = "snap";
 
 /// State file permissions (owner read/write only)
 #[cfg(unix)]
-#[allow(dead_code)]
 const STATE_FILE_PERMISSIONS: u32 = 0o600;
 
 /// Transaction type for WAL entries
@@ -482,9 +484,10 @@ impl<T: Serialize + for<'de> Deserialize<'de> + Clone + PartialEq + Send + Sync 
             ))
         })?;
 
-        // Generate HMAC key
-        let mut hmac_key_bytes = vec![0u8; 32];
-        rand::thread_rng().fill_bytes(&mut hmac_key_bytes);
+        // Load the integrity key of this state directory, or create it on first
+        // use. The key must outlive the process: records written by an earlier
+        // process can only be verified with the key that tagged them.
+        let hmac_key_bytes = Self::load_or_create_hmac_key(&config.state_dir)?;
         let hmac_key = SecureMemory::from_slice(&hmac_key_bytes)?;
 
         // Create WAL writer
@@ -510,6 +513,45 @@ impl<T: Serialize + for<'de> Deserialize<'de> + Clone + PartialEq + Send + Sync 
         manager.start_checkpoint_task()?;
 
         Ok(manager)
+    }
+
+    /// Load the per-directory integrity key, creating it (atomically, owner-only)
+    /// when the directory has none yet.
+    fn load_or_create_hmac_key(state_dir: &Path) -> Result<Vec<u8>> {
+        let key_path = state_dir.join(KEY_FILE_NAME);
+        if let Ok(existing) = std::fs::read(&key_path)
+            && existing.len() == 32
+        {
+            return Ok(existing);
+        }
+
+        let mut key = vec![0u8; 32];
+        rand::thread_rng().fill_bytes(&mut key);
+
+        let temp_path = state_dir.join(format!("{KEY_FILE_NAME}.tmp"));
+        {
+            let mut options = OpenOptions::new();
+            options.create(true).write(true).truncate(true);
+            #[cfg(unix)]
+            {
+                use std::os::unix::fs::OpenOptionsExt;
+                options.mode(STATE_FILE_PERMISSIONS);
+            }
+            let mut file = options.open(&temp_path).map_err(|e| {
+                P2PError::Storage(StorageError::Database(
+                    format!("Failed to create integrity key file: {e}").into(),
+                ))
+            })?;
+            file.write_all(&key)?;
+            file.sync_all()?;
+        }
+        std::fs::rename(&temp_path, &key_path).map_err(|e| {
+            P2PError::Storage(StorageError::Database(
+                format!("Failed to store integrity key: {e}").into(),
+            ))
+        })?;
+
+        Ok(key)
     }
 
     /// Insert or update state entry
